@@ -5,13 +5,13 @@ PROP = {'modules': ['AmVerif.Props.C08'],
  'rule': 'every case = one op executed in a CHILD process (re-exec of amh) under a watchdog: blocked = every thread in scheduler state S, no '
          'progress-counter movement and no CPU tick for 2 s; death by signal reported with the signal. cases 0-15: all 16 look-up graphs on two '
          'script assets (self and mutual get_cached look-ups), file of a0 edited + notified, one hot_reload(); case 16: 4 threads x 400 '
-         'hot_reload(); case 17: loader panic in a dependent during the reload; later cases random: 40% hr.update (1-6 assets [thorough 10], '
+         'hot_reload(); case 17: loader panic in a dependent during the reload; case 18: hr.bulk 300 (one reload pass that loads 300 never-cached assets: the reloader thread sends 300 AddAsset messages on the channel it alone consumes); later cases random: 1/12 hr.bulk (40 / 300; thorough 1-3000), else 40% hr.update (1-6 assets [thorough 10], '
          'random load DAG + random look-ups incl. cycles, random changed files, 1/6 with a panicking loader), 50% hr.conc (1-8 [16] threads x '
          '5-3000 [20000] hot_reload() calls (threads x calls <= 50000), 0-2 loader threads doing load/get_or_insert, 0-1 threads editing + notifying), 10% malformed lines '
          '(both sides must answer bad-op). Free-running threads are a SEARCH: the model is asked whether some schedule explains the outcome. '
          'non-trivial = a child was run; distinct = distinct (op, outcome) transcripts',
  'assumptions': ['std / parking_lot Mutex + Condvar: mutual exclusion, wait = atomic release-and-sleep, notify_all wakes every waiter; spurious wake-ups allowed',
-                 'crossbeam unbounded channel: FIFO, send fails once the receiver is gone',
+                 'crossbeam unbounded channel: FIFO, send NEVER blocks (the model has no blocking send: skel_start_unbounded_channel pins channel::unbounded() in HotReloader::start, hr.bulk exercises the reloader sending to itself), send fails once the receiver is gone',
                  'fairness of the OS scheduler and of the lock implementations (a thread that stays enabled is eventually run)',
                  'the stack of the reloader thread holds #graph-nodes + 1 frames of DepsGraph::visit (stack overflow is modelled as exhaustion of every fuel)',
                  'loaders return or panic (a loader that never returns blocks hot_reload by design)'],
